@@ -4,6 +4,7 @@ import GdslModel.Model.Search
 import GdslModel.Model.Container
 import GdslModel.Model.Own
 import GdslModel.Model.Sync
+import GdslModel.Model.Live
 /-!
 Line-protocol driver: reads an annotated program on stdin, prints the model's observation
 stream (one line per request). The harness runs the same program on the real code.
@@ -21,6 +22,7 @@ structure St where
   dead : Bool := false             -- the case was cut after a panic of the model
   graphs : List (Nat × Cont Nat) := []   -- container slots
   own : OwnSt Nat Nat := {}              -- ownership accounting (C19)
+  sres : List String := []               -- results of script operations run from callbacks (C20)
 
 def showList (l : List (Nat × Nat)) : String :=
   "[" ++ ",".intercalate (l.map fun (k, e) => s!"{k}:{e}") ++ "]"
@@ -456,6 +458,112 @@ def doConc (st : St) (toks : List String) : St × String :=
         else (st, "model-unfinished")
   | _, _ => (st, "bad-op")
 
+/-! ### live loops (C20): scripts run from inside iterators and callbacks -/
+
+structure ScriptEnt where
+  at_ : Option Nat
+  below : Nat
+  ops : List (String × Nat × Nat × Nat)
+
+def parseScript (s : String) : List ScriptEnt :=
+  if s == "-" || s == "" then [] else
+  (s.splitOn ";").filterMap fun ent =>
+    match ent.splitOn "=" with
+    | [w, ops] =>
+      let ol := ((ops.splitOn "/").filter (· != "")).map fun c =>
+        let p := c.splitOn "."
+        let n := fun (i : Nat) => ((p.getD i "0").toNat?).getD 0
+        (p.headD "", n 1, n 2, n 3)
+      if w.startsWith "*" then some { at_ := none, below := ((w.drop 1).toString.toNat?).getD 0, ops := ol }
+      else some { at_ := some ((w.toNat?).getD 0), below := 0, ops := ol }
+    | _ => none
+
+def opsAt (sc : List ScriptEnt) (i : Nat) : List (String × Nat × Nat × Nat) :=
+  (sc.filter fun e => e.at_ == some i || (e.at_.isNone && i < e.below)).flatMap (·.ops)
+
+/-- one script operation against the live state; its result is appended to `sres` -/
+def scriptOp (st : St) (op : String × Nat × Nat × Nat) : St :=
+  let (k, a, b, e) := op
+  let push := fun (st : St) (r : String) => { st with sres := st.sres ++ [r] }
+  let edge := fun (r : S × Res Nat) => push { st with s := r.1 } (resStr r.2)
+  match k with
+  | "c" => push { st with s := connect st.s a b e } "ok"
+  | "t" => edge (if st.directed then Di.tryConnect st.s a b e else Un.tryConnect st.s a b e)
+  | "d" => edge (if st.directed then Di.disconnect st.s a b else Un.disconnect st.s a b)
+  | "x" => edge (if st.directed then Di.isolate st.s a else Un.isolate st.s a)
+  | "q" => push st (b01 (if st.directed then Di.isConnected st.s a b else Un.isConnected st.s a b))
+  | "s" =>
+    match searchPath (if st.directed then outAdj st.s else unAdj st.s) (fun _ _ _ => true) (nodeVal st) .bfs a (some b) false (st.keys.length + 2) with
+    | some (some p, _) => push st s!"len={p.length}"
+    | some (none, _) => push st "none"
+    | none => push st "out-of-fuel"
+  | "gi" => let (g, r) := (getG st 0).insert a; push (setG st 0 g) (tf r)
+  | "gr" => let (g, r) := (getG st 0).remove a; push (setG st 0 g) (if r then s!"Some({a})" else "None")
+  | _ => push st "bad"
+
+def liveFuel : Nat := 4000
+
+def doIter (st : St) (which u script : String) : St × String :=
+  match u.toNat? with
+  | none => (st, "bad-op")
+  | some u =>
+    let sc := parseScript script
+    let sel : St → Nat → List (Nat × Nat) := fun st k =>
+      if !st.directed then unAdj st.s k else if which == "in" then inAdj st.s k else outAdj st.s k
+    let cbf : Nat → Edge Nat Nat → St → St × Bool := fun i _ st => ((opsAt sc i).foldl scriptOp st, true)
+    let c : LCfg St Nat Nat := ⟨sel, cbf, none⟩
+    match iterLoop c u 301 0 { st with sres := [] } [] with
+    | none => (st, "hang")
+    | some (st', log) =>
+      let ys := log.map fun x => if st.directed && which == "in" then (x.1.2.1, x.1.1, x.1.2.2) else x.1
+      ({ st' with sres := [] }, s!"yield={showEdges ys} res=[{",".intercalate st'.sres}]")
+
+/-- a search / ordering whose closure runs a script (C20) -/
+def doLiveSearch (st : St) (isOrder : Bool) (kind dir root target method mode : String) : St × String :=
+  match method.splitOn "@" with
+  | [m, script] =>
+    match root.toNat?, parseMethod m with
+    | some r, some (acc, _) =>
+      let sc := parseScript script
+      let sel : Option (St → Nat → List (Nat × Nat)) :=
+        if !st.directed then (if dir == "fwd" then some (fun st k => unAdj st.s k) else none)
+        else if dir == "fwd" || dir == "default" then some (fun st k => outAdj st.s k)
+        else if dir == "tr" then some (fun st k => inAdj st.s k) else none
+      match sel with
+      | none => (st, "bad-op")
+      | some adj =>
+        let cb : Nat → Edge Nat Nat → St → St × Bool := fun i e st => ((opsAt sc i).foldl scriptOp st, acc e.1 e.2.1 e.2.2)
+        let st0 := { st with sres := [] }
+        let fin := fun (st' : St) (body : String) (log : Log St Nat Nat) =>
+          ({ st' with sres := [] }, s!"{body} trace={showEdges (log.map (·.1))} res=[{",".intercalate st'.sres}]")
+        if isOrder then
+          match orderEdgesL adj cb (kind == "post") r liveFuel st0 with
+          | none => (st, "out-of-fuel")
+          | some (ts, st') =>
+            let tgs := ts.tree.map (fun x => x.2.1)
+            if mode == "nodes" then fin st' s!"nodes={showKeys (if kind == "post" then tgs ++ [r] else r :: tgs)}" ts.log
+            else fin st' s!"edges={showEdges ts.tree}" ts.log
+        else
+          match parseKind kind with
+          | none => (st, "bad-op")
+          | some k =>
+            let tgt : Option Nat := target.toNat?
+            match runLoopL adj cb (nodeVal st) k r tgt (mode == "cycle") liveFuel st0 with
+            | none => (st, "out-of-fuel")
+            | some (found, ts, st') =>
+              if mode == "node" then
+                let res : Option Nat := if !found then none else
+                  match k with
+                  | .bfs | .dfs => tgt
+                  | _ => ((backtrack ts.tree).getLast?).map (·.2.1)
+                fin st' s!"node={showOpt res}" ts.log
+              else if found then
+                let p := backtrack ts.tree
+                fin st' s!"path={showEdges p} nodes={showKeys (pathNodes p)}" ts.log
+              else fin st' "path=None" ts.log
+    | _, _ => (st, "bad-op")
+  | _ => (st, "bad-op")
+
 def stripVia (line : String) : String :=
   match line.splitOn " #" with
   | h :: _ => h
@@ -491,8 +599,13 @@ def step (st : St) (line : String) : St × String :=
   | ["q", u, v] => match u.toNat?, v.toNat? with
     | some u, some v => (st, query st u v)
     | _, _ => (st, "bad-op")
-  | ["search", kind, dir, root, target, method, mode] => (st, doSearch st kind dir root target method mode)
-  | ["order", kind, dir, root, method, mode] => (st, doOrder st kind dir root method mode)
+  | ["search", kind, dir, root, target, method, mode] =>
+    if method.contains '@' then doLiveSearch st false kind dir root target method mode
+    else (st, doSearch st kind dir root target method mode)
+  | ["order", kind, dir, root, method, mode] =>
+    if method.contains '@' then doLiveSearch st true kind dir root "-" method mode
+    else (st, doOrder st kind dir root method mode)
+  | ["iter", which, u, script] => doIter st which u script
   | ["macro", arg] => doMacro st arg
   | ["cmp", k1, v1, k2, v2] => match k1.toNat?, v1.toInt?, k2.toNat?, v2.toInt? with
     | some k1, some v1, some k2, some v2 => (st, doCmp k1 v1 k2 v2)
